@@ -17,6 +17,7 @@ import (
 	"os"
 	"sort"
 	"strings"
+	"sync"
 	"testing"
 
 	"github.com/cloudwego/eino/compose"
@@ -184,6 +185,9 @@ type histRun struct {
 	env      *gkit.CallEnv
 	finished bool
 	finalOut any
+	runner   *gkit.Runner // the runnable of the last call
+	lastOpts []compose.Option
+	lastCase CaseGraph
 }
 
 const maxHistCalls = 80
@@ -247,6 +251,7 @@ func runHistory(c CaseHist) (*histRun, *vkit.Failure) {
 		}
 		cg := CaseGraph{Spec: c.Spec, Input: in, Paradigm: rec.Paradigm}
 		out, rerr := runSpec(gkit.WithCall(ctx, callIdx), r, env, cg, opts...)
+		h.runner, h.lastOpts, h.lastCase = r, opts, cg
 		rec.Err = rerr
 		rec.Out = out
 		rec.Sets = store.SetsInCall(callIdx)
@@ -1071,4 +1076,106 @@ func TestC02Resume(t *testing.T) {
 
 func TestC02ResumeReplay(t *testing.T) {
 	vkit.Replay(t, "C02", checkHistFor("C02", map[string]bool{"dag": true, "workflow": true}))
+}
+
+// ---- C09, resume part: resumed runs are runs like any other - isolated ----
+// After a history has completed, the call that completed it is repeated: the checkpoint it resumed from is still
+// in the store (a call that finishes writes none), so every repetition - one after the other and several at once,
+// on the same compiled runnable - starts from the same stored bytes and must return what the first one returned.
+
+type CaseHistRep struct {
+	H          CaseHist `json:"h"`
+	Sequential int      `json:"sequential"`
+	Concurrent int      `json:"concurrent"`
+}
+
+func genHistRep(t *rapid.T) CaseHistRep {
+	h := genHistModes(t, []string{"pregel", "dag", "workflow"}, true)
+	h.Paradigms = []string{"invoke"}
+	h.NoID = false
+	return CaseHistRep{H: h, Sequential: rapid.IntRange(1, 2).Draw(t, "sequential"), Concurrent: rapid.IntRange(0, 4).Draw(t, "concurrent")}
+}
+
+func checkC09Resume(c CaseHistRep) (*vkit.Failure, vkit.Meta) {
+	var m vkit.Meta
+	if c.H.Spec == nil || len(c.H.Paradigms) != 1 || c.H.Paradigms[0] != "invoke" || len(c.H.Fresh) == 0 {
+		return nil, m
+	}
+	f := vkit.Guard("panic-escaped", func() *vkit.Failure {
+		base := cloneSpec(c.H.Spec)
+		stripInterrupts(base)
+		ref := gkit.Ref(base, "", fixInput(c.H.Spec, c.H.Input), gkit.RefOpts{})
+		if ref.Fail != "" || ref.Ambiguous || len(ref.OptionalNodes) > 0 {
+			// nodes that do not lead to END may outlive their run (and, when they hold a nested graph, interrupt after it
+			// returned): only graphs in which a returned run is a finished run are judged here
+			m.Labels = append(m.Labels, "not-a-clean-run-skipped")
+			return nil
+		}
+		h, fl := runHistory(c.H)
+		if fl != nil {
+			return fl
+		}
+		interrupts := 0
+		for _, cr := range h.calls {
+			if cr.Interrupted {
+				interrupts++
+			}
+		}
+		m.Labels = append(m.Labels, fmt.Sprintf("interrupts:%s", bucket(interrupts)))
+		if !h.finished || interrupts == 0 {
+			m.Labels = append(m.Labels, "history-without-completed-resume(skipped)")
+			return nil // C05's business, or nothing was resumed
+		}
+		want := gkit.Canon(h.finalOut)
+		again := func(what string) *vkit.Failure {
+			// the environment of the history is kept: bodies that ask for a rerun on their first attempts count attempts there
+			out, err := runSpec(context.Background(), h.runner, h.env, h.lastCase, h.lastOpts...)
+			if err != nil {
+				return vkit.Failf("repeated-resume-differs", "%s from the same stored checkpoint failed: %s (the first resume returned %q)", what, shortErr(err), vkit.Short(want, 200))
+			}
+			if got := gkit.Canon(out); got != want {
+				return &vkit.Failure{Kind: "repeated-resume-differs", Sig: "repeated-resume-differs", Msg: fmt.Sprintf("%s from the same stored checkpoint returned %q, the first resume returned %q", what, vkit.Short(got, 200), vkit.Short(want, 200))}
+			}
+			return nil
+		}
+		for i := 0; i < c.Sequential; i++ {
+			if f := again(fmt.Sprintf("resume #%d", i+2)); f != nil {
+				return f
+			}
+		}
+		if c.Concurrent >= 2 {
+			fs := make([]*vkit.Failure, c.Concurrent)
+			var wg sync.WaitGroup
+			for i := range fs {
+				wg.Add(1)
+				go func(i int) {
+					defer wg.Done()
+					defer func() {
+						if p := recover(); p != nil {
+							fs[i] = vkit.Failf("panic-escaped", "concurrent resume panicked: %v", p)
+						}
+					}()
+					fs[i] = again(fmt.Sprintf("one of %d concurrent resumes", c.Concurrent))
+				}(i)
+			}
+			wg.Wait()
+			for _, f := range fs {
+				if f != nil {
+					return f
+				}
+			}
+			m.Labels = append(m.Labels, "concurrent-resumes")
+		}
+		m.NonTrivial = interrupts >= 1
+		return nil
+	})
+	return f, m
+}
+
+func TestC09Resume(t *testing.T) {
+	vkit.Prop(t, vkit.NewRecorder("C09"), genHistRep, checkC09Resume)
+}
+
+func TestC09ResumeReplay(t *testing.T) {
+	vkit.Replay(t, "C09", checkC09Resume)
 }
